@@ -37,6 +37,11 @@ CLAIMED = {
    note="Trusted: ring layer over fr.Element; math/big.NewInt and Element.Exp interpreted (uninterpreted power); fft.Generator opaque (captured). Preconditions: non-empty vectors for Eval/Sum; GetCoeff for 0 <= shift <= 2^20. Not under contract: Lagrange-basis and bit-reversed evaluation, FFT-based conversions, ratios, quotient, expressions, serialisation, InterpolateOnRange, MultiLin.Evaluate/Eq. Two defects found and repaired (Evaluate ignored shifts outside 0..5; Add panicked on an empty destination).",
    technique="contract-based deductive verification: loop invariants with quantifiers and recursive SMT specification functions over symbolic coefficient arrays, identical-slice alias partitions, ghost capture of opaque callee arguments at call-site cut points",
    design="§10.4 C20"),
+ "C13": dict(
+   text="Deductive proof that expand_message_xmd is total (every slice/index/allocation is a discharged obligation for all messages, DSTs and lengths), returns exactly len_in_bytes bytes and returns an error exactly for inadmissible parameters (length outside 0..255*32, DST longer than 255 bytes); that Hash (hash_to_field) of all 23 fields is total, returns exactly count elements and refuses exactly the inadmissible parameters with L = 16 + ceil(bits/8) recomputed from the pinned modulus; and that the sgn0 / NotZero helpers of hash-to-curve of every curve return the parity of the integer denoted by the Montgomery representation (Fp2: of x0, or of x1 when x0 = 0) and the zero test.",
+   note="Trusted: assumed contracts of hash.Hash for sha256.New; opaque big.Int conversions and pool; fp.Element.Bits through its C08 contract. Not under contract: which bytes are hashed (SHA-256 chain) and the reduction modulo q; MapToCurve (SvdW/SSWU), isogenies, cofactor clearing, HashToG*/EncodeToG*; RFC vectors. One defect found and repaired (ExpandMsgXmd panics for short, negative and huge lengths).",
+   technique="contract-based deductive verification: bounds/no-panic obligations and acceptance-iff-admissible clauses with assumed interface contracts, loop invariants (nested annotated loops), machine-word proofs of sgn0 against reg()",
+   design="§10.4 C13"),
  "C14": dict(
    text="Deductive proof for MiMC of all 8 curves (encrypt = documented number of rounds of x -> (x+k+c_i)^d then +k, by loop invariant against a recursive specification; checksum = Miyaguchi-Preneel fold; Write never slices its input beyond len(p), accepts only whole blocks or one short left-padded block and reports consumed bytes; SetState and Sum flush pending blocks) and for the Poseidon2 external/internal linear layers (published matrices, widths 2 and 3) and S-box of the 8 curve-field instances.",
    note="Trusted: ring layer over fr.Element; documented MiMC exponents/round counts and Poseidon2 matrices; the round-constant tables are fixed arrays whose derivation is not under contract; interface fr.ByteOrder assumed (its implementations are proved under C08). Not under contract: Poseidon2 round schedule and wrappers, small-field Poseidon2, ring-SIS, Merkle-Damgard wrapper, registry.",
@@ -72,7 +77,6 @@ NA = {
  "C10": "equality with the DFT needs the Cooley-Tukey induction over a goroutine-split recursion; a recursive specification mirroring the code would restate the algorithm, not the property",
  "C11": "KZG verification reduces to the pairing-check relation (C05, not applicable) over MSM results (C04, not applicable); acceptance-implies-check contracts in the style of C17 were not written in the time available",
  "C12": "signature verifiers and byte decoders use math/big throughout; the big.Int model was not built, so no contract is claimed",
- "C13": "ExpandMsgXmd totality and the map-to-curve identities are within reach (loop invariants with SHA-256 uninterpreted; ring-layer identities) but were not brought under contract in the time available",
  "C18": "purity/repeatability needs inferred frames for every exported entry point and a treatment of goroutines; only the modifies clauses of the functions under contract are checked (reported under the respective properties), which does not carry the property",
 }
 
